@@ -233,6 +233,22 @@ def _act1(ctx, name, action, where):
             if len(keep) != len(objs):
                 tr.skipped.append(("extend-dodoer-with-running-member", name))
             objs = keep
+            # ... nor a DoDoer that shares a (transitive) member with a scheduler outside its own subtree (the member finished
+            # there earlier and stays listed, or was handed to both): entering the DoDoer starts that member under it while
+            # the other scheduler still lists it
+            def _shared(o):
+                sub = [o] + list(_members(o))
+                inside = {id(x) for x in sub}
+                scheds = [ctx.doist] + [x for x in ctx.by_name.values() if getattr(x, "doers", None) is not None]
+                for m in sub[1:]:
+                    for sch in scheds:
+                        if id(sch) not in inside and any(x is m for x in (sch.doers or [])):
+                            return True
+                return False
+            keep = [o for o in objs if o in host.doers or not _shared(o)]
+            if len(keep) != len(objs):
+                tr.skipped.append(("extend-dodoer-with-shared-member", name))
+            objs = keep
             others = [ctx.by_name[n] for names in ctx.pending for n in names if n in ctx.by_name]
             keep = []
             for o in objs:
